@@ -9,7 +9,8 @@
   `forIn_readonly_false`, `advanceHeadFront_one_action`, `group_exit_real` (the forking head leaves the group and is handed back as actionable).  The merging loop's call on the MERGING member
   head of an and-group, with the nested call on the forking head: `and_group_merge_real`; the same for ONE MERGING branch head of an
   or-group of single atoms: `or_group_merge_real`.  Both calls composed for one event on a pure and-group: `and_group_event_real`;
-  on a pure or-group of single atoms with one branch matching: `or_group_event_real`.
+  on a pure or-group of single atoms with one branch matching: `or_group_event_real`.  CoreVM's `mergeLoop` (`while heads_are_merging`)
+  around call 2: `mergeLoop_active`, `and_group_mergeLoop_real`.
 -/
 import NemoVerif.Lemmas.GroupCoreVMMirror
 set_option linter.unusedSimpArgs false
@@ -767,8 +768,8 @@ theorem group_exit_real (fuel : Nat) (s : VM) (f : FUid) (h : HUid) (i : Inst) (
     (hact : hd.status = .active) (hstarted : i.status = .started)
     (hnd : ((hview i).map (·.1)).Nodup) (hrange : ∀ o ∈ i.heads, o.pos < cfg.elements.size) :
     ∃ s' i', advanceHeadFront (fuel + 3) [(f, h)] s = .ok [(f, h)] s' ∧ FlowAt s' f i' x cfg ∧
-      hview i' = (hview i).map (setPosCore h (hd.pos + 2)) ∧ s'.r.cleared = s.r.cleared := by
-  obtain ⟨s', i', hadv, F', hv', hclr'⟩ := group_exit fuel s f h i x cfg hd spec n H hsz hc1 hc2 hp hargs hint hcl
+      hview i' = (hview i).map (setPosCore h (hd.pos + 2)) ∧ s'.r.cleared = s.r.cleared ∧ s'.r.queue = s.r.queue := by
+  obtain ⟨s', i', hadv, F', hv', hclr', hq'⟩ := group_exit fuel s f h i x cfg hd spec n H hsz hc1 hc2 hp hargs hint hcl
   have hmem := mem_hview_of_findHead i h hd H.hh
   have hndv' : ((hview i').map (·.1)).Nodup := by
     rw [hv', List.map_map]
@@ -797,7 +798,7 @@ theorem group_exit_real (fuel : Nat) (s : VM) (f : FUid) (h : HUid) (i : Inst) (
   have hia : (Prim.sendOp spec).isActionOp = true := by
     simp only [Prim.isActionOp, hp.2.2, hint, Bool.not_false]
   exact ⟨s', i', advanceHeadFront_one_action (fuel + 2) s f h i i' x cfg hd hd' s' spec H hact hstarted hadv hi0 F' hh'
-    (by rw [hp']; exact hsz) hrange' (by rw [hp']; exact hc2) hia hs', F', hv', hclr'⟩
+    (by rw [hp']; exact hsz) hrange' (by rw [hp']; exact hc2) hia hs', F', hv', hclr', hq'⟩
 
 /-! ### the merging loop's call: the MERGING member head of an and-group -/
 
@@ -823,7 +824,7 @@ theorem and_group_merge_real (fuel : Nat) (s : VM) (f : FUid) (i : Inst) (x : In
     (hp : PlainSpec spec nm) (hargs : spec.args = []) (hint : internalEvents.contains nm = false)
     (hcl : ((OMap.lookup (f, uj.1) s.r.hx).getD {}).catchLabels.isEmpty = false) :
     ∃ s' i' x', advanceHeadFront (fuel + 5) [(f, uj.1)] s = .ok [(f, r)] s' ∧ FlowAt s' f i' x' cfg ∧
-      hview i' = [(r, pe + 4, HeadStatus.active)] := by
+      hview i' = [(r, pe + 4, HeadStatus.active)] ∧ s'.r.queue = s.r.queue := by
   have hndv : ((hview i).map (·.1)).Nodup := by
     rw [hv, List.map_cons, renderU_fst _ _ _ hlen]; exact hndu
   have hmem_h : (uj.1, pe + 2, HeadStatus.merging) ∈ hview i := by
@@ -832,7 +833,7 @@ theorem and_group_merge_real (fuel : Nat) (s : VM) (f : FUid) (i : Inst) (x : In
   have hujmem : uj.1 ∈ us.map (·.1) := List.mem_map.2 ⟨uj, List.mem_of_getElem? hju, rfl⟩
   have hrh : r ≠ uj.1 := fun e => (List.nodup_cons.1 hndu).1 (e ▸ hujmem)
   -- the merge
-  obtain ⟨s1, i1, x1, hsl, F1, ho1, hv1, _, hst1, hclr1, y', hy1, hy2⟩ :=
+  obtain ⟨s1, i1, x1, hsl, F1, ho1, hv1, _, hst1, hclr1, ⟨y', hy1, hy2⟩, hq1⟩ :=
     and_clause_completes fuel s f i x cfg l mu pe n fp r us ms j uj a F C hv hlen hndu hju hjm hone hfu hhx hleaf hmu hfp
   -- the nested call: the forking head leaves the group
   have hndv1 : ((hview i1).map (·.1)).Nodup := by rw [hv1]; simp
@@ -845,7 +846,7 @@ theorem and_group_merge_real (fuel : Nat) (s : VM) (f : FUid) (i : Inst) (x : In
     omega
   have H1 : HeadAt s1 f r i1 x1 cfg rd1 :=
     { hi := F1.hi, hx := F1.hx, hc := F1.hc, hh := hfr1, hlt := by rw [hrp1]; omega, hst := by rw [hrs1]; decide }
-  obtain ⟨s2, i2, hnest, F2, hv2, hclr2⟩ := group_exit_real (fuel + 1) s1 f r i1 x1 cfg rd1 spec nm H1 (by rw [hrp1]; exact hsz4)
+  obtain ⟨s2, i2, hnest, F2, hv2, hclr2, hq2⟩ := group_exit_real (fuel + 1) s1 f r i1 x1 cfg rd1 spec nm H1 (by rw [hrp1]; exact hsz4)
     (by rw [hrp1]; exact hc1) (by rw [hrp1]; exact hc2) hp hargs hint
     (by rw [hy1]; simp only [Option.getD_some]; rw [hy2]; exact hcl) hrs1 (by rw [hst1]; exact hstarted) hndv1 hrange1
   have hv2' : hview i2 = [(r, pe + 4, HeadStatus.active)] := by
@@ -869,7 +870,7 @@ theorem and_group_merge_real (fuel : Nat) (s : VM) (f : FUid) (i : Inst) (x : In
   have hclr2' : s2.r.cleared.contains (f, uj.1) = false := by rw [hclr2, hclr1]; exact hclr
   have hel2 : cfg.elements[rd2.pos]? = some (.sendOp spec) := by
     rw [hrp2, ← hc2]; simp [getElem!_pos, hsz4]
-  refine ⟨s2, i2, x1, ?_, F2, hv2'⟩
+  refine ⟨s2, i2, x1, ?_, F2, hv2', by rw [hq2, hq1]⟩
   unfold advanceHeadFront
   simp only [List.forIn_cons, List.forIn_nil, bind, EStateM.bind, pure, EStateM.pure, getInst?, getIx, get, getThe, MonadStateOf.get,
     EStateM.get, F.hi, cfgOfInst, getInstX, getInstX?, getRest, F.hx, getCfg, F.hc, getHead?, Option.bind, hfh, hstat,
@@ -944,7 +945,7 @@ theorem or_group_merge_real (fuel : Nat) (s : VM) (f : FUid) (i : Inst) (x : Ins
     (hp : PlainSpec spec nm) (hargs : spec.args = []) (hint : internalEvents.contains nm = false)
     (hcl : ((OMap.lookup (f, uj.1) s.r.hx).getD {}).catchLabels.isEmpty = false) :
     ∃ s' i' x', advanceHeadFront (fuel + 5) [(f, uj.1)] s = .ok [(f, r)] s' ∧ FlowAt s' f i' x' cfg ∧
-      hview i' = [(r, pe + 3, HeadStatus.active)] := by
+      hview i' = [(r, pe + 3, HeadStatus.active)] ∧ s'.r.queue = s.r.queue := by
   have hndv : ((hview i).map (·.1)).Nodup := by
     rw [hv, List.map_cons, renderB_fst _ _ _ hlen]; exact hndu
   have hmem_h : (uj.1, pe + 1, HeadStatus.merging) ∈ hview i := by
@@ -953,7 +954,7 @@ theorem or_group_merge_real (fuel : Nat) (s : VM) (f : FUid) (i : Inst) (x : Ins
   have hujmem : uj.1 ∈ us.map (·.1) := List.mem_map.2 ⟨uj, List.mem_of_getElem? hju, rfl⟩
   have hrh : r ≠ uj.1 := fun e => (List.nodup_cons.1 hndu).1 (e ▸ hujmem)
   -- the merge
-  obtain ⟨s1, i1, x1, hsl, F1, ho1, hv1, _, hst1, hclr1, y', hy1, hy2⟩ :=
+  obtain ⟨s1, i1, x1, hsl, F1, ho1, hv1, _, hst1, hclr1, ⟨y', hy1, hy2⟩, hq1⟩ :=
     or_branch_completes fuel s f i x cfg l mu pe fp r us ms j uj F C hv hlen hndu hju hjm hone hfu hhx hleaf hmu hfp
   -- the nested call: the forking head leaves the group
   have hndv1 : ((hview i1).map (·.1)).Nodup := by rw [hv1]; simp
@@ -966,7 +967,7 @@ theorem or_group_merge_real (fuel : Nat) (s : VM) (f : FUid) (i : Inst) (x : Ins
     omega
   have H1 : HeadAt s1 f r i1 x1 cfg rd1 :=
     { hi := F1.hi, hx := F1.hx, hc := F1.hc, hh := hfr1, hlt := by rw [hrp1]; omega, hst := by rw [hrs1]; decide }
-  obtain ⟨s2, i2, hnest, F2, hv2, hclr2⟩ := group_exit_real (fuel + 1) s1 f r i1 x1 cfg rd1 spec nm H1 (by rw [hrp1]; exact hsz4)
+  obtain ⟨s2, i2, hnest, F2, hv2, hclr2, hq2⟩ := group_exit_real (fuel + 1) s1 f r i1 x1 cfg rd1 spec nm H1 (by rw [hrp1]; exact hsz4)
     (by rw [hrp1]; exact hc1) (by rw [hrp1]; exact hc2) hp hargs hint
     (by rw [hy1]; simp only [Option.getD_some]; rw [hy2]; exact hcl) hrs1 (by rw [hst1]; exact hstarted) hndv1 hrange1
   have hv2' : hview i2 = [(r, pe + 3, HeadStatus.active)] := by
@@ -990,7 +991,7 @@ theorem or_group_merge_real (fuel : Nat) (s : VM) (f : FUid) (i : Inst) (x : Ins
   have hclr2' : s2.r.cleared.contains (f, uj.1) = false := by rw [hclr2, hclr1]; exact hclr
   have hel2 : cfg.elements[rd2.pos]? = some (.sendOp spec) := by
     rw [hrp2, ← hc2]; simp [getElem!_pos, hsz4]
-  refine ⟨s2, i2, x1, ?_, F2, hv2'⟩
+  refine ⟨s2, i2, x1, ?_, F2, hv2', by rw [hq2, hq1]⟩
   unfold advanceHeadFront
   simp only [List.forIn_cons, List.forIn_nil, bind, EStateM.bind, pure, EStateM.pure, getInst?, getIx, get, getThe, MonadStateOf.get,
     EStateM.get, F.hi, cfgOfInst, getInstX, getInstX?, getRest, F.hx, getCfg, F.hc, getHead?, Option.bind, hfh, hstat,
@@ -1135,7 +1136,7 @@ theorem and_group_event_real (fuel : Nat) (s : VM) (f : FUid) (i : Inst) (x : In
   refine ⟨j, us[j], a, hju, hjm, by rw [hacts]; rfl, ?_⟩
   rw [hacts]
   have hujmem : us[j].1 ∈ us.map (·.1) := List.mem_map.2 ⟨us[j], List.getElem_mem hjlt, rfl⟩
-  exact and_group_merge_real fuel s1 f i1 x cfg l mu pe ms.length fp r us (p1Members e ms.length [] ms) j us[j] a spec nm F1 C hv1'
+  have hfin := and_group_merge_real fuel s1 f i1 x cfg l mu pe ms.length fp r us (p1Members e ms.length [] ms) j us[j] a spec nm F1 C hv1'
     (by rw [hl']; exact hlen) hndu hju hjm
     (by
       intro j' m' hm' hne
@@ -1144,6 +1145,8 @@ theorem and_group_event_real (fuel : Nat) (s : VM) (f : FUid) (i : Inst) (x : In
       cases hm2 : m'.2 <;> simp_all)
     hfu (by rw [hr1]; exact hhx) (by rw [hr1]; exact hleaf) hmu hfp hst1 (by rw [hr1]; exact hqueue) (by rw [hr1, hclr]; rfl)
     hsz4 hc1 hc2 hp hargs hint (by rw [hr1]; exact hcl _ hujmem)
+  obtain ⟨s2, i2, x2, h1, h2, h3, _⟩ := hfin
+  exact ⟨s2, i2, x2, h1, h2, h3⟩
 
 /-! ### one event on a pure or-group of single atoms (one branch matching) through both calls of the real function -/
 
@@ -1180,6 +1183,61 @@ theorem or_group_event_real (fuel : Nat) (s : VM) (f : FUid) (i : Inst) (x : Ins
   obtain ⟨s2, i2, x2, hreal2, F2, hv2⟩ := or_group_merge_real fuel s1 f i1 x cfg l mu pe fp r us (p1Brs e 0 brs).1 j uj spec nm
     F1 C hv1' (by rw [hl1]; exact hlen) hndu hju hjm hone hfu (by rw [hr1]; exact hhx) (by rw [hr1]; exact hleaf) hmu hfp hst1
     (by rw [hr1]; exact hqueue) (by rw [hr1, hclr]; rfl) hsz4 hc1 hc2 hp hargs hint (by rw [hr1]; exact hcl)
-  exact ⟨s1, i1, s2, i2, x2, by simpa using hreal, F1, hv1', hreal2, F2, hv2⟩
+  exact ⟨s1, i1, s2, i2, x2, by simpa using hreal, F1, hv1', hreal2, F2, hv2.1⟩
+
+/-! ### `while heads_are_merging:` -/
+
+/-- `while heads_are_merging:` with an empty event queue and one pending head that is ACTIVE: the loop ends and hands the head on -/
+theorem mergeLoop_active (fuel : Nat) (s : VM) (f : FUid) (h : HUid) (i : Inst) (hd : Head)
+    (hi : findInst s.ixs.ix f = some i) (hh : i.findHead h = some hd) (hst : hd.status = .active) (hq : s.r.queue = []) :
+    mergeLoop (fuel + 2) [(f, h)] s = .ok [(f, h)] s := by
+  have hso : headStatusOf s.ixs.ix (f, h) = some HeadStatus.active := by
+    simp only [headStatusOf, hi, Option.bind, hh, Option.map, hst]
+  unfold mergeLoop
+  simp only [drainEvents, bind, EStateM.bind, getRest, get, getThe, MonadStateOf.get, EStateM.get, pure, EStateM.pure, hq,
+    pendingDetachedBad, List.any_cons, List.any_nil, hso, Option.isNone_some, Bool.false_and, Bool.or_false, Bool.false_eq_true, if_false,
+    List.filter_cons, List.filter_nil, show (some HeadStatus.active = some HeadStatus.merging) = False from by simp, decide_false,
+    decide_true, if_true, List.isEmpty_nil]
+
+/-- **`while heads_are_merging:` (CoreVM's `mergeLoop`) on the MERGING member head of an and-group**: the event queue is empty, the one
+    pending head is MERGING: `_advance_head_front` is called with it (`and_group_merge_real`), hands back the forking head — ACTIVE on the
+    statement after the group —, and the next round of the loop finds nothing MERGING and ends: the forking head goes to the main loop
+    (`_resolve_action_conflicts`, then the marker is sent). -/
+theorem and_group_mergeLoop_real (fuel : Nat) (s : VM) (f : FUid) (i : Inst) (x : InstX) (cfg : FlowCfg) (l mu : String) (pe n fp : Nat)
+    (r : HUid) (us : List (HUid × Nat)) (ms : List (Nat × MLoc)) (j : Nat) (uj : HUid × Nat) (a : Nat)
+    (spec : Spec) (nm : String)
+    (F : FlowAt s f i x cfg) (C : ClauseShape cfg l mu pe n)
+    (hv : hview i = (r, fp, HeadStatus.inactive) :: renderU (pe + 1) us ms)
+    (hlen : us.length = ms.length) (hndu : (r :: us.map (·.1)).Nodup)
+    (hju : us[j]? = some uj) (hjm : ms[j]? = some (a, MLoc.merging))
+    (hone : ∀ j' m', ms[j']? = some m' → j' ≠ j → m'.2 = MLoc.atWait ∨ m'.2 = MLoc.atMatch)
+    (hfu : OMap.lookup mu x.forkUids = some r)
+    (hhx : ((OMap.lookup (f, r) s.r.hx).getD {}).childHeadUids = us.map (·.1))
+    (hleaf : ∀ c ∈ us.map (·.1), ((OMap.lookup (f, c) s.r.hx).getD {}).childHeadUids = [])
+    (hmu : mu ∉ us.map (·.1)) (hfp : fp ≠ pe + 2)
+    (hstarted : i.status = .started) (hq : s.r.queue = []) (hclr : s.r.cleared.contains (f, uj.1) = false)
+    (hsz4 : pe + 4 < cfg.elements.size) (hc1 : cfg.elements[pe + 3]! = .catchFail none) (hc2 : cfg.elements[pe + 4]! = .sendOp spec)
+    (hp : PlainSpec spec nm) (hargs : spec.args = []) (hint : internalEvents.contains nm = false)
+    (hcl : ((OMap.lookup (f, uj.1) s.r.hx).getD {}).catchLabels.isEmpty = false) :
+    ∃ s' i' x', mergeLoop (fuel + 6) [(f, uj.1)] s = .ok [(f, r)] s' ∧ FlowAt s' f i' x' cfg ∧
+      hview i' = [(r, pe + 4, HeadStatus.active)] := by
+  have hndv : ((hview i).map (·.1)).Nodup := by
+    rw [hv, List.map_cons, renderU_fst _ _ _ hlen]; exact hndu
+  have hmem_h : (uj.1, pe + 2, HeadStatus.merging) ∈ hview i := by
+    rw [hv]; exact List.mem_cons_of_mem _ (mem_renderU (pe + 1) us ms j uj (a, MLoc.merging) hju hjm)
+  obtain ⟨hd, hfh, _, hstat⟩ := findHead_of_mem_hview i hndv uj.1 (pe + 2) .merging hmem_h
+  obtain ⟨s2, i2, x2, hreal, F2, hv2, hq2⟩ := and_group_merge_real fuel s f i x cfg l mu pe n fp r us ms j uj a spec nm F C hv hlen hndu
+    hju hjm hone hfu hhx hleaf hmu hfp hstarted hq hclr hsz4 hc1 hc2 hp hargs hint hcl
+  have hndv2 : ((hview i2).map (·.1)).Nodup := by rw [hv2]; simp
+  obtain ⟨rd2, hfr2, _, hrs2⟩ := findHead_of_mem_hview i2 hndv2 r (pe + 4) .active (by rw [hv2]; simp)
+  have hnext := mergeLoop_active (fuel + 3) s2 f r i2 rd2 F2.hi hfr2 hrs2 (by rw [hq2]; exact hq)
+  have hso : headStatusOf s.ixs.ix (f, uj.1) = some HeadStatus.merging := by
+    simp only [headStatusOf, F.hi, Option.bind, hfh, Option.map, hstat]
+  refine ⟨s2, i2, x2, ?_, F2, hv2⟩
+  unfold mergeLoop
+  simp only [drainEvents, bind, EStateM.bind, getRest, get, getThe, MonadStateOf.get, EStateM.get, pure, EStateM.pure, hq,
+    pendingDetachedBad, List.any_cons, List.any_nil, hso, Option.isNone_some, Bool.false_and, Bool.or_false, Bool.false_eq_true, if_false,
+    List.filter_cons, List.filter_nil, show (some HeadStatus.merging = some HeadStatus.active) = False from by simp, decide_false,
+    decide_true, if_true, List.isEmpty_cons, hreal, List.nil_append, hnext]
 
 end NemoVerif.CoreVM
